@@ -240,100 +240,89 @@ example : (⟨.collectMax, [], [.none], [.none], [⟨[.t], [.num 1]⟩, ⟨[.t],
     evaluate ⟨.collectMin, [], [.none], [.none], [⟨[.t], [.num 1]⟩, ⟨[.t], [.null]⟩, ⟨[.t], [.num 3]⟩]⟩ = .ok .null ∧
     evaluate ⟨.collectMax, [], [.none], [.none], [⟨[.t], [.num 1]⟩, ⟨[.t], [.num 3]⟩]⟩ = .ok (.num 3) := by decide
 
-/-
--- FULL STATEMENT (not provable of the current code, finding F19):
-theorem no_match_default (t : Table) (wf : t.WF = true) (h : matchingRules t = []) :
-    evaluate t = .ok (Spec.evaluate t)
-i.e. the default output entry if one is defined and null otherwise, a context of the clauses'
-defaults keyed by the component names for several output clauses.
-`evaluate_default_output_value` (`decision_table.rs:131-137`) flattens the defaults of all
-clauses and returns null as soon as there are two of them (and the bare value when only one of
-several clauses has a default).
--/
-
-/-- The excluded region of F19: several output clauses of which at least one has a default. -/
-def singleOrNoDefault (t : Table) : Bool :=
-  decide (t.outputValues.length = 1) || (defaults t).all (· = none)
-
-/-- No rule matches: the default output entry if one is defined, null otherwise — for tables
-with one output clause, or without default entries. -/
-theorem no_match_default_partial (t : Table) (wf : t.WF = true) (h : matchingRules t = [])
-    (hs : singleOrNoDefault t = true) :
-    evaluate t = .ok (Spec.evaluate t) := by
-  have hdl : t.defaultOutputs.length = t.outputValues.length := by
-    simp only [Table.WF, Bool.and_eq_true, decide_eq_true_eq] at wf
-    exact wf.1.2
-  -- the code's default equals the specified default
-  have hd : defaultOutput (evalTable t) = Spec.default t := by
-    simp only [defaultOutput, evalTable, Spec.default]
-    show pickDefault (flattenCells t.defaultOutputs) = _
-    simp only [singleOrNoDefault, Bool.or_eq_true, decide_eq_true_eq] at hs
-    rcases hs with hs | hs
-    · -- one clause
-      rw [hs] at hdl
-      match hd : t.defaultOutputs, hdl with
-      | [c], _ =>
-        simp only [defaults, hd, List.map_cons, List.map_nil, flattenCells_eq, List.flatMap_cons,
-          List.flatMap_nil, List.append_nil]
-        cases c with
-        | none => simp [Cell.values, pickDefault]
-        | other => simp [Cell.values, pickDefault]
-        | exprList vs =>
-          match vs with
-          | [] => simp [Cell.values, pickDefault]
-          | [v] => simp [Cell.values, pickDefault]
-          | _ :: _ :: _ => simp [Cell.values, pickDefault]
-    · -- no defined default
-      have hall : (defaults t).all (· = none) = true := hs
-      have hnot1 : (flattenCells t.defaultOutputs).length ≠ 1 := by
-        intro h1
-        obtain ⟨c, hc, hl⟩ := flattenCells_length_one _ h1
-        simp only [defaults, List.all_map, List.all_eq_true] at hall
-        have := hall c hc
-        cases c with
-        | none => simp [Cell.values] at hl
-        | other => simp [Cell.values] at hl
-        | exprList vs =>
-          match vs, hl with
-          | [v], _ => simp at this
-      have hcode : pickDefault (flattenCells t.defaultOutputs) = DTValue.null := by
-        match hf : flattenCells t.defaultOutputs with
-        | [] => rfl
-        | [v] => rw [hf] at hnot1; simp at hnot1
-        | _ :: _ :: _ => rfl
-      rw [hcode]
-      match hdf : defaults t with
-      | [d] =>
-        rw [hdf] at hall
-        simp only [List.all_cons, List.all_nil, Bool.and_true, decide_eq_true_eq] at hall
-        simp [hall]
-      | [] => simp
-      | _ :: _ :: _ => rw [hdf] at hall; simp [hall]
+/-- No rule matches: the default output entry if one is defined and null otherwise; for a table
+with several output clauses the context of the clauses' default entries keyed by the component
+names (F19, repaired by 620a0fd). Holds for every table. -/
+theorem no_match_default (t : Table) (h : matchingRules t = []) :
+    evaluate t = .ok (Spec.evaluate t) ∧
+    Spec.evaluate t = (match t.hitPolicy with
+      | .collectSum | .collectMin | .collectMax =>
+        if t.componentNames.length > 1 then .null else Spec.default t
+      | _ => Spec.default t) := by
+  have hd : defaultOutput (evalTable t) = Spec.default t := defaultOutput_eq t
   have hm : matching (evalTable t).rules = [] := by rw [matching_evalTable, h]; rfl
   have hp : prioritized (evalTable t) = [] := by
     have := (prioritized_perm t).length_eq
     rw [hm] at this
     simpa using this
   have hn : (evalTable t).componentNames = t.componentNames := rfl
-  simp only [evaluate, Spec.evaluate, h, List.isEmpty_nil, if_true]
-  cases hpol : t.hitPolicy <;>
-    simp only [hitUnique, hitAny, hitPriority, hitFirst, hitRuleOrder, hitOutputOrder, hitCollectList,
-      hitCollectCount, hitCollectAgg, hm, hp, hd, hn] <;>
-    split <;> rfl
+  constructor
+  · simp only [evaluate, Spec.evaluate, h, List.isEmpty_nil, if_true]
+    cases hpol : t.hitPolicy <;>
+      simp only [hitUnique, hitAny, hitPriority, hitFirst, hitRuleOrder, hitOutputOrder, hitCollectList,
+        hitCollectCount, hitCollectAgg, hm, hp, hd, hn] <;>
+      split <;> rfl
+  · simp only [Spec.evaluate, h, List.isEmpty_nil, if_true]
+    cases t.hitPolicy <;> rfl
 
-example : (⟨.first, [], [.none], [.exprList [.num 9]], [⟨[.f], [.num 1]⟩]⟩ : Table).WF = true ∧
-    matchingRules ⟨.first, [], [.none], [.exprList [.num 9]], [⟨[.f], [.num 1]⟩]⟩ = [] ∧
-    singleOrNoDefault ⟨.first, [], [.none], [.exprList [.num 9]], [⟨[.f], [.num 1]⟩]⟩ = true ∧
+/-- What the default is: one clause — its default entry or null; several clauses — null when
+none has a default entry, else the context keyed by the component names (sorted keys, key set =
+the component names) of the default entries, null for a clause without one. -/
+theorem default_spec (t : Table) :
+    (∀ c, t.defaultOutputs = [c] → Spec.default t = c.single.getD .null) ∧
+    (t.defaultOutputs.length ≠ 1 → (t.defaultOutputs.all (fun c => c.single = none)) = true →
+      Spec.default t = .null) ∧
+    (t.defaultOutputs.length ≠ 1 → (t.defaultOutputs.all (fun c => c.single = none)) = false →
+      t.defaultOutputs.length = t.componentNames.length →
+      ∃ es, Spec.default t = .ctx es ∧ DTValue.Sorted es ∧
+        (∀ k, k ∈ es.map Prod.fst ↔ k ∈ t.componentNames)) := by
+  refine ⟨?_, ?_, ?_⟩
+  · intro c hc
+    simp [Spec.default, Spec.defaults, hc, Spec.defaultOf]
+  · intro hl hall
+    have hall' : ((Spec.defaults t).all fun d => decide (d = none)) = true := by
+      simpa [Spec.defaults, List.all_map] using hall
+    simp only [Spec.default]
+    match hd : Spec.defaults t with
+    | [d] =>
+      have : t.defaultOutputs.length = 1 := by
+        have := congrArg List.length hd
+        simpa [Spec.defaults] using this
+      exact absurd this hl
+    | [] => simp [Spec.defaultOf]
+    | _ :: _ :: _ => rw [hd] at hall'; simp [Spec.defaultOf, hall']
+  · intro hl hall hlen
+    have hall' : ((Spec.defaults t).all fun d => decide (d = none)) = false := by
+      simpa [Spec.defaults, List.all_map] using hall
+    have hlen' : (Spec.defaults t).length = t.componentNames.length := by
+      simpa [Spec.defaults] using hlen
+    simp only [Spec.default]
+    match hd : Spec.defaults t with
+    | [d] =>
+      have : t.defaultOutputs.length = 1 := by
+        have := congrArg List.length hd
+        simpa [Spec.defaults] using this
+      exact absurd this hl
+    | [] => rw [hd] at hall'; simp at hall'
+    | d :: d' :: rest =>
+      rw [hd] at hall' hlen'
+      refine ⟨ctxOfPairs (t.componentNames.zip ((d :: d' :: rest).map (·.getD .null))), ?_, ?_, ?_⟩
+      · simp only [Spec.defaultOf, hall', hlen']; simp
+      · exact DTValue.sorted_foldl_insert _ [] (by simp [DTValue.Sorted])
+      · intro k
+        rw [ctxOfPairs_keys, List.map_fst_zip]
+        simp only [List.length_map]
+        omega
+
+/-- The old witness of F19: two output clauses `a`, `b` with defaults 1 and 2, no rule; and a
+default on `b` only. -/
+example :
+    evaluate ⟨.unique, [['a'], ['b']], [.none, .none], [.exprList [.num 1], .exprList [.num 2]], []⟩ =
+      .ok (.ctx [(['a'], .num 1), (['b'], .num 2)]) ∧
+    evaluate ⟨.unique, [['a'], ['b']], [.none, .none], [.none, .exprList [.num 2]], []⟩ =
+      .ok (.ctx [(['a'], .null), (['b'], .num 2)]) ∧
+    evaluate ⟨.unique, [['a'], ['b']], [.none, .none], [.none, .none], []⟩ = .ok .null ∧
     evaluate ⟨.first, [], [.none], [.exprList [.num 9]], [⟨[.f], [.num 1]⟩]⟩ = .ok (.num 9) := by decide
-
-/-- The witness of F19: two output clauses `a`, `b` with defaults 1 and 2, no rule. -/
-def defaultWitness : Table :=
-  ⟨.unique, [['a'], ['b']], [.none, .none], [.exprList [.num 1], .exprList [.num 2]], []⟩
-
-theorem no_match_default_counterexample :
-    defaultWitness.WF = true ∧ matchingRules defaultWitness = [] ∧
-    evaluate defaultWitness = .ok .null ∧
-    Spec.evaluate defaultWitness = .ctx [(['a'], .num 1), (['b'], .num 2)] := by decide
 
 /-- Several output clauses: the result of a rule is a context whose key set is the set of
 component names, keys in increasing order (and null when names and entries do not pair up). -/
@@ -380,13 +369,12 @@ theorem parse_hit_policy_spec :
   split at h <;> simp_all
 
 /-- The whole evaluation equals the declarative specification `Spec.evaluate` (the function
-the correspondence compares the implementation with), outside the excluded region:
-several output clauses with default entries when no rule matches (F19). -/
-theorem evaluate_eq_spec_partial (t : Table) (wf : t.WF = true)
-    (h19 : matchingRules t = [] → singleOrNoDefault t = true) :
+the correspondence compares the implementation with), for every
+well-formed table and every matrix of evaluated cells. -/
+theorem evaluate_eq_spec (t : Table) (wf : t.WF = true) :
     evaluate t = .ok (Spec.evaluate t) := by
   by_cases hm : matchingRules t = []
-  · exact no_match_default_partial t wf hm (h19 hm)
+  · exact (no_match_default t hm).1
   · have hne : (matchingRules t).isEmpty = false := by
       cases h : matchingRules t with
       | nil => exact absurd h hm
